@@ -503,6 +503,8 @@ fn c17_cfg(ctx: &Ctx) -> CaseCfg {
       combine: true,
       recovery: true,
       sched_default: true,
+      // (shared connections: x.ref_count() / x.replay() own a subject with hooks)
+      connectable: true,
       ..GenCfg::default()
     },
     hot_kinds: vec![HotKind::Harness, HotKind::Subject, HotKind::Behavior(0), HotKind::Replay, HotKind::Async],
